@@ -127,6 +127,18 @@ func (s *Sim) scheduleCall(c *call) {
 		return
 	}
 	flt := s.decide(c)
+	if flt == "" && c.kind == callSQLDial {
+		// A dial to a reachable, running server is answered at once (zero simulated latency,
+		// no event): which goroutine of a daemon obtains the pool's idle connection and which
+		// one has to dial is decided by the Go scheduler, so it must not be visible in timing.
+		// Statements always cost time; failing dials below cost time too.
+		if sv := s.mysql.servers[c.dst]; sv != nil && sv.Up && s.net.blockedMode(srcHostOf(c.src), c.dst) == "" {
+			s.mon.touch(c.src, sv)
+			sv.conns[c.connID] = true
+			s.finishSQL(c, sqlResult{rows: [][]any{{sv.Epoch}}}, true)
+			return
+		}
+	}
 	if flt != "" {
 		s.noteFault(c.key, flt)
 	}
@@ -277,7 +289,7 @@ func (s *Sim) deliverZKDial(c *call) {
 	}
 	if s.net.blockedMode(host, "zk") == "blackhole" {
 		s.stats.Faults["zk_dial_timeout"]++
-		s.after(time.Second, "zkdial-timeout", func() {
+		s.after(3*time.Second, "zkdial-timeout", func() {
 			s.finishSQL(c, sqlResult{err: &net.OpError{Op: "dial", Net: "tcp", Err: fmt.Errorf("i/o timeout")}}, false)
 		})
 		return
